@@ -56,6 +56,7 @@ static int cmdReplay(const std::string &file) {
     else if (v.st == V_KNOWN) knowns++;
     else if (v.st == V_INCONCLUSIVE) inconcl++;
     printf("replay %d: %s %s\n", i + 1, v.st == V_PASS ? "PASS" : v.st == V_FAIL ? "FAIL" : v.st == V_KNOWN ? "KNOWN" : v.st == V_DISCARD ? "DISCARD" : "INCONCLUSIVE", v.msg.c_str());
+    if (fails != i + 1 && knowns != i + 1) break; // the three runs can no longer agree on "fail" or "known": the result is decided
   }
   if (fails == 3) { printf("REPLAY-RESULT fail property=%s\n", cs.prop.c_str()); return 1; }
   if (knowns == 3) { printf("REPLAY-RESULT known property=%s id=%s\n", cs.prop.c_str(), last.known.c_str()); return 0; }
@@ -68,6 +69,7 @@ int main(int argc, char **argv) {
   std::string cmd = argc > 1 ? argv[1] : "";
   std::map<std::string, std::string> a;
   for (int i = 2; i + 1 < argc; i += 2) a[argv[i]] = argv[i + 1];
+  if (getenv("VERIF_NO_POISON")) g_lib.poison = false; // valgrind tier: memcheck tracks definedness itself
   const char *kf = getenv("VERIF_KNOWN_FINDINGS");
   kfLoad(kf ? kf : rootDir() + "/known_findings.json");
   if (cmd == "replay") return cmdReplay(argc > 2 ? argv[2] : "");
